@@ -239,7 +239,7 @@ static void run_pair(uint64_t seed)
     // 32-bit sources: all 2^32 values (thorough) or a 1/509 strided sample (quick)
     if (sizeof(From) == 4)
     {
-        uint64_t stride = ctx().tier ? 1 : 509, start = ctx().tier ? 0 : seed % 509, cnt = 0;
+        uint64_t stride = sweep_stride(509), start = seed % stride, cnt = 0;
         size_t fill = 0;
         for (uint64_t p = start; p < (1ull << 32); p += stride)
         {
